@@ -177,6 +177,19 @@ def _worker(args):
         mod = importlib.import_module(modname)
         ses = Session(mod, tier, known, deadline)
         t0 = time.time()
+        # ---- replay tier: saved failing inputs (regress/<ID>/*.json), shard 0 only ---
+        if k == 0:
+            rdir = os.path.join(VERIF, "regress", mod.ID)
+            files = sorted(os.listdir(rdir)) if os.path.isdir(rdir) else []
+            for fn in files:
+                if not fn.endswith(".json"):
+                    continue
+                case = json.load(open(os.path.join(rdir, fn)))["case"]
+                try:
+                    ses.process(case)
+                except ViolationFound:
+                    ses.end_round()
+            ses.stats.extra["regress_replayed"] = len(files)
         # ---- enumerated part -------------------------------------------------
         enum = getattr(mod, "enumerate_cases", None)
         n_enum = 0
